@@ -143,6 +143,8 @@ def _node_kind(n):
         return "call"
     if isinstance(n, ast.Raise):
         return "raise"
+    if isinstance(n, ast.Subscript):
+        return "index"
     return None
 
 
